@@ -51,6 +51,8 @@ def pool():
 
 
 def family(e):
+    if isinstance(e, ElementMatrix):
+        return "matrix"
     if isinstance(e, ElementGlobal):
         return "global"
     if isinstance(e, ElementHdiv):
